@@ -102,6 +102,11 @@ pub fn is_live(id: u32) -> bool {
     ST.with(|s| s.borrow().live.binary_search(&id).is_ok())
 }
 
+/// Records a violation seen by the foreign side of the harness (e.g. a released callback being called).
+pub fn note_bad(msg: String) {
+    ST.with(|s| s.borrow_mut().bad.push(msg))
+}
+
 pub fn take_bad() -> Vec<String> {
     ST.with(|s| std::mem::take(&mut s.borrow_mut().bad))
 }
